@@ -11,7 +11,7 @@ CLAIMED = {
  "C05": ("Lean theorems over all registration histories on one builder: token ids are stable per name, injective, >= 1000 (above every built-in type); a registration whose (role, token) is already present (seeded built-in or earlier) is refused and leaves the builder unchanged; accepted registrations are recorded once; operator lists never hold a token twice. Built-in seeds are a regenerated table obligation.", "§7 C05", "The grouping clause (a registered infix operator groups like a built-in of its level) is decided by the PARSE correspondence with custom operators and the model-free precedence-climbing oracle (exhaustive level x neighbour grid), not yet by theorem; partial."),
  "C09": ("Lean theorems over all operation histories: spec-decode(encode) = recorded absolute mappings, VLQ round trip for every Int, name interning, line-break aware position tracking, version 3.", "§7 C09", ""),
  "C10": ("Lean theorems over all byte strings: totality with a final EOF, EOF stickiness at the end position, every token starts at the line/column of the byte offset where the cursor stood, offsets are monotone and inside the source, every non-EOF token consumes input.", "§7 C10", "Tiling by trivia-only gaps and literal=slice are decided by correspondence + the model-free tiling oracle, not yet by theorem."),
- "C11": ("Lean theorems over all token lists, all modes/tables/interceptors: error value iff error list non-empty; errors only grow; every error range is the range of an input token; cursor never moves backwards.", "§7 C11", "Totality and tree completeness are decided by correspondence (timeouts/panics compared) + the error-contract oracle; partial."),
+ "C11": ("Lean theorems over all token lists, all modes/tables/interceptors: error value iff error list non-empty; errors only grow; every error range is the range of an input token; no statement list at any depth contains a nil entry; an error-free parse returns a complete tree (every mandatory child present, recursively) and a complete tree compiles in every configuration without dereferencing a nil child; cursor never moves backwards.", "§7 C11", "Termination of the parser for every input is NOT proved in Lean (the model's parser is a least fixed point; all theorems are 'whenever the parse returns'): divergence and panics are decided by the correspondence run (diverging/panicking ops compared) and the error-contract oracle; partial."),
  "C13": ("Lean theorems over all token lists, tables and interceptor lists: (a) where strict mode reports no error, tolerant mode returns the identical result; (c) smart-semicolon mode returns the same tree and the same errors as the default mode whenever no `(` or `[` is the first token of a line.", "§7 C13", "What tolerant mode additionally accepts (b) and the exact effect of the smart cut on line-initial ( and [ (d) are decided by the PARSE correspondence in all four modes and the model-free mode-diff oracle; partial."),
  "C14": ("Lean theorems over all trees/configurations: requesting a source map never changes the code, debug string = compact compilation, compile is a function of (cfg, tree); package tables read-only is a regenerated table obligation.", "§7 C14", "The quantifier over goroutine schedules is NOT proved (no Lean model of the Go memory model): explored by repeated/shared-builder histories against the sequential model; partial."),
  "C15": ("Lean theorem over all trees: compact output and debug string are functions of the comment-erased tree (with or without source map), so they contain no comment text and no comment alters the code.", "§7 C15", "Pretty-mode inventory clauses (each comment once, in order, before its anchor) are decided by correspondence only; partial."),
